@@ -812,6 +812,22 @@ func runC03OptionsDecoded(c *Ctx) {
 	if n == 0 {
 		c.R.Add(core.Obligation{Rule: "options-decoded", Key: "options-decoded ParseOptions", Func: core.FuncName(fn), Status: core.Violated, Detail: "no map update in ParseOptions"})
 	}
+	// a pad octet has no length octet: the test "the announced length exceeds what is left" is made only for an octet that
+	// is not Pad (evaluated for a pad it reads the next option's code as a length and ends the walk before the options
+	// that follow)
+	core.EachInstr(fn, func(i ssa.Instruction) {
+		iff, ok := i.(*ssa.If)
+		if !ok || !regexp.MustCompile(`^\(len\(φ\)<\(2\+φ\[1\]\)\)$`).MatchString(norm(iff.Cond)) {
+			return
+		}
+		st, det := core.Proved, ""
+		if !hasGuard(guardsOf(i), `^!\(φ\[0\]==0\)$`) {
+			st = core.Violated
+			det = "ParseOptions compares the announced length with what is left before it has excluded the pad octet (conditions: " + guardTexts(guardsOf(i)) + "): for a pad the next option's code is read as a length, and a pad in front of one of the last options ends the walk - the options behind it (a server identifier, say) are dropped"
+		}
+		c.R.Add(core.Obligation{Rule: "options-decoded", Key: "options-decoded ParseOptions truncation test only for an option with a length octet", Func: core.FuncName(fn), Pos: c.P.Pos(core.PosOf(i)), Status: st,
+			Basis: "the length test is under !(cursor[0] == Pad)", Detail: det})
+	})
 }
 
 // sameBase: every index/slice operand reachable in the expression v (through conversions, arithmetic, loads and
